@@ -36,12 +36,12 @@ def run(ctx):
     ctx.preload(cfgs)
     for cfg in cfgs:
         fs = ctx.facts(cfg)
-        html_taint(ctx, cfg, fs)
-        html_tags(ctx, cfg, fs)
-        pairing(ctx, cfg, fs)
-        escaper(ctx, cfg, fs)
-        unescaped(ctx, cfg, fs)
-        sections(ctx, cfg, fs)
+        ctx.guard(html_taint, ctx, cfg, fs)
+        ctx.guard(html_tags, ctx, cfg, fs)
+        ctx.guard(pairing, ctx, cfg, fs)
+        ctx.guard(escaper, ctx, cfg, fs)
+        ctx.guard(unescaped, ctx, cfg, fs)
+        ctx.guard(sections, ctx, cfg, fs)
 
 def out_string(b):
     for c in b.calls():
